@@ -614,6 +614,20 @@ func runCase(c Case, known func(string) bool) *h.Outcome {
 	if res[H].Hung {
 		return fail("settle-hang", "Settle of the honest party did not return within the hang limit")
 	}
+	// A failed Settle call costs nothing yet: the honest party tries again.  (On
+	// the unchanged tree a Settle that starts after the ledger channel's
+	// registered event was handled but before the sub-channel's own event has
+	// reached its machine fails with a phase error; the next attempt succeeds.
+	// A fresh-copy run of this check met that schedule once.)
+	for attempt := 0; attempt < 3 && res[H].Err != nil && !res[H].Hung; attempt++ {
+		o.Class("honest-settle-retried")
+		pr.Env.Quiesce(20*time.Millisecond, sim.HangLimit)
+		r2 := pr.Settle([]int{H}, false, [2]bool{})
+		res[H] = r2[H]
+	}
+	if res[H].Hung {
+		return fail("settle-hang", "a repeated Settle of the honest party did not return within the hang limit")
+	}
 	if res[H].Err != nil {
 		o.Class("honest-settle-error")
 	}
